@@ -167,3 +167,10 @@ CHECKS["C20"] = {
     "text": "All 68 built-ins in BUILTIN_MAP, dm {F,T} x COMPUTE_ANNEXED_DOFS {F,T} x {no OpenMP, parallel-do, parallel+do, reprod reductions}, W0 and W3 fields, OMP_NUM_THREADS 1-3; values: all 36 pairs of {-2..3} per DoF plus a distinct non-integer pattern, real scalars {-2,0,3,0.5}, integer scalars {-2,0,3} (quick: 16k executed invokes, 1.28M DoF values compared, 1.1k loop bounds judged; thorough: 122k / 8.7M / 4.8k). Part B judges the loop upper bound (undf / last owned / last annexed / last halo(d) after redundant computation) against the documentation.",
     "note": "The stub infrastructure has no real halos, so values are checked on all DoFs and DoF RANGES are decided structurally from the generated bounds (documented deviation from the ring-machine design). DoFs whose documented value is undefined (x/0, negative**real) are executed but not judged. Fixed: redundant computation accepted reduction loops.",
 }
+
+CHECKS["C22"] = {
+    "level": "model_checking",
+    "technique": "explicit-state BFS over accepted LFRic transformation histories of generated 1-3 kernel distributed-memory invokes x every initial halo state; the REAL generated PSy layer is re-read and executed by the E1 interpreter in lock-step on a concrete two-partition ring machine (mc/lfring: owned/annexed/halo DoFs to depth 3, per-depth dirty flags, halo exchanges, colour maps, stencil dofmaps) and compared with a global serial run",
+    "text": "Invokes of 1-2 (quick) / 1-3 (thorough) kernels over 3 fields with per-argument access {READ, WRITE, INC, READINC, READWRITE} x continuous / discontinuous / any_space x stencils (x1d/cross/region, extent 1-2) plus dof built-ins, x annexed setting x every initial halo state per field (dirty, clean to 1,2,3) x BFS over <=2 / <=3 accepted transformations (redundant computation depth 1,2,max; colouring; OpenMP; async halo exchange; moving a halo exchange; loop fusion): quick 190k executions of 5.1k PSy layers, thorough 827k / 17k. Oracles use values only: owned DoFs equal the serial run; every halo copy within a claimed-clean depth equals the owner's value; no undefined value flows into an owned DoF.",
+    "note": "The ring machine is the trusted model of the LFRic runtime (transcribed from the shipped infrastructure sources and developer guide; a model-fidelity self-test runs at start-up, failure = exit 2). N=4 cells per partition, halo depth 3, one layer; OpenMP regions executed serially; fused loops judged only when serially equivalent. Fixed: GH_WRITE-only kernels on discontinuous fields read dirty annexed DoFs when annexed computation is off.",
+}
